@@ -33,6 +33,7 @@ type SnapCase struct {
 	Reverse       bool           `json:"reverse"`
 	Poly          [][][2]float64 `json:"poly"`
 	Kind          string         `json:"kind,omitempty"`
+	Flush         bool           `json:"flush,omitempty"` // generator note: placed flush with a border of the grid
 }
 
 func (c *SnapCase) JSON() []byte {
@@ -89,6 +90,9 @@ var (
 	setDyadicNeg = SetChoice{Spec: dy(3, 16, -8), Bases: []int{0, 1}}
 	// a deep, evenly dividing dyadic set: extent 2^22 units, tile 1, ids up to 27 = level 31 (2^31 pixels per axis)
 	setDyadicDeep = SetChoice{Spec: dy(27, 0.03125, 0), Bases: []int{22, 23, 24, 25}}
+	// the same extent one level deeper: ids up to 28 = level 32, the deepest level the Z-order keys can address (2^32 pixels per
+	// axis, pixel 2^-10 units: still an exact integer number of 1e-10 units); pixel addresses use all 32 bits, keys all 64
+	setDyadic32   = SetChoice{Spec: dy(28, 0.015625, 0), Bases: []int{26, 27, 28}}
 	setDyadic256  = SetChoice{Spec: grid.Spec{Depth: 3, Cell: 0.5, Origin: 100, TileWidth: 256}, Bases: []int{0, 1}}
 	setRDdeep     = SetChoice{Spec: grid.Spec{Name: "NetherlandsRDNewQuad"}, Bases: []int{9, 10, 11, 12}}
 	setRDshallow  = SetChoice{Spec: grid.Spec{Name: "NetherlandsRDNewQuad"}, Bases: []int{3}}
@@ -193,6 +197,19 @@ func gridZoo() []SetChoice {
 				zooChoices = append(zooChoices, sc, sc)
 			}
 		}
+		// wide extents: a root extent wider than 2^62 integer units (4.6e8 CRS units; every ordinate still fits): products of a
+		// pixel address and a pixel size pass 2^63 in the far part of the extent although every coordinate fits (bases deep enough
+		// for a window of 100 pixels to stay below 2^63 units: the generators measure windows in pixels)
+		wo := -4e8
+		for _, sc := range []SetChoice{
+			{Spec: grid.Spec{Depth: 20, Cell: 512, Origin: -268435456}, Bases: []int{6, 12, 16}},
+			{Spec: grid.Spec{Depth: 12, Cell: 131072, Origin: -1.5e8, OriginY: &wo}, Bases: []int{4, 8}},
+		} {
+			if _, err := grid.NewSet(sc.Spec); err == nil {
+				zooClass[sc.Spec.String()] = "wide-extent(>2^62 units)"
+				zooChoices = append(zooChoices, sc, sc)
+			}
+		}
 	})
 	return zooChoices
 }
@@ -206,7 +223,7 @@ var tileWidthSets = []SetChoice{
 	{Spec: grid.Spec{Depth: 4, Cell: 8, Origin: 0, TileWidth: 3}, Bases: []int{0, 1, 2}},
 }
 
-var defaultSets = []SetChoice{setDyadic2, setDyadic2, setDyadic2, setDyadic4, setDyadicNeg, setDyadic256, setDyadicDeep, setRDdeep, setRDdeep, setRDshallow, setWMdeep, setWMdeep, setWMshallow, setETRS}
+var defaultSets = []SetChoice{setDyadic2, setDyadic2, setDyadic2, setDyadic4, setDyadicNeg, setDyadic256, setDyadicDeep, setDyadic32, setRDdeep, setRDdeep, setRDshallow, setWMdeep, setWMdeep, setWMshallow, setETRS}
 
 // Profile steers the generation of snapping cases for one property.
 type Profile struct {
@@ -231,6 +248,9 @@ func countSet(rec *fw.Recorder, sc *SnapCase) {
 	gridZoo()
 	if cls, ok := zooClass[k]; ok {
 		rec.Count("grid-class:" + cls)
+	}
+	if sc.Flush {
+		rec.Count("placement:flush-with-a-border-of-the-grid")
 	}
 	kind := sc.Kind
 	if strings.HasSuffix(kind, "+repeated-point") {
@@ -351,6 +371,7 @@ func genSnapCase(rng *fw.Rng, pr *Profile) (*SnapCase, string) {
 		return nil, "window-too-large"
 	}
 	var px, py int64
+	flushed := false
 	switch rng.Intn(5) {
 	case 4: // next to a self-similar spot of the quadtree: a corner, the middle of a side, or the centre of the extent
 		spot := func() int64 {
@@ -377,6 +398,30 @@ func genSnapCase(rng *fw.Rng, pr *Profile) (*SnapCase, string) {
 		}
 	}
 	px, py = clamp(px, lowpx, n-wpx-1), clamp(py, lowpx, n-wpx-1)
+	if rng.Chance(1, 12) && minx >= 0 && miny >= 0 {
+		// flush with the border: the extreme vertices lie in the outermost pixel row / column of the grid (pixel 0 or
+		// pixel 2^level - 1: addresses with all bits clear or all bits set), on one axis or - in a corner - on both
+		flush := func(lo, hi int64) (int64, bool) {
+			switch rng.Intn(3) {
+			case 0:
+				return -(lo * q / pix), true
+			case 1:
+				// only where the integer grid ends exactly with the extent: on other grids the last pixels lie in the
+				// uncovered sliver of known finding KF-GAP, which belongs to C06's sliver generator and its list
+				if req.Round && gs.SpanY == gs.Span {
+					return n - 1 - (hi*q)/pix, true
+				}
+			}
+			return 0, false
+		}
+		if v, ok := flush(minx, maxx); ok && v >= 0 {
+			px = v
+		}
+		if v, ok := flush(miny, maxy); ok && v >= 0 {
+			py = v
+		}
+		flushed = true
+	}
 	var jx, jy int64
 	if rng.Chance(1, 4) {
 		jx, jy = rng.Int63n(q), rng.Int63n(q)
@@ -425,7 +470,7 @@ func genSnapCase(rng *fw.Rng, pr *Profile) (*SnapCase, string) {
 		}
 		kind += "+repeated-point"
 	}
-	c := &SnapCase{TMS: sc.Spec, IDs: ids, Keep: rng.Bool(), Reverse: rng.Chance(1, 4), IgnoreOutside: rng.Chance(1, 4), Poly: poly, Kind: kind}
+	c := &SnapCase{TMS: sc.Spec, IDs: ids, Keep: rng.Bool(), Reverse: rng.Chance(1, 4), IgnoreOutside: rng.Chance(1, 4), Poly: poly, Kind: kind, Flush: flushed}
 	return c, ""
 }
 
